@@ -18,21 +18,21 @@ func vhCfb(nsec int) []byte {
 	n := 512 + 128*nsec
 	vhMaxLen(n + 8)
 	b := vhBytes("cfb", n)
-	for i, m := range fileMagic {
-		vhAssume(b[i] == m)
-	}
-	le16 := func(off int) uint16 { return binary.LittleEndian.Uint16(b[off:]) }
-	le32 := func(off int) uint32 { return binary.LittleEndian.Uint32(b[off:]) }
-	vhAssume(le16(28) == byteOrderMarker)
-	vhAssume(le16(30) == 7)                      // sector size 2^7
-	vhAssume(le16(32) <= 6)                      // short sector size
-	vhAssume(le32(68) == 0xfffffffe)             // no MSAT sectors beyond the header
+	// fixed bytes are assigned, not assumed: they become constants for the
+	// solver and the native replay overwrites the tape's bytes the same way
+	copy(b, fileMagic)
+	binary.LittleEndian.PutUint16(b[28:], byteOrderMarker)
+	binary.LittleEndian.PutUint16(b[30:], 7) // sector size 2^7
+	b[32] &= 3                               // short sector size 2^0..2^3
+	b[33] = 0
+	binary.LittleEndian.PutUint32(b[68:], 0xfffffffe) // no MSAT sectors beyond the header
 	for i := 1; i < msatInHeader; i++ {
-		vhAssume(le32(76+4*i) == 0xffffffff)
+		binary.LittleEndian.PutUint32(b[76+4*i:], 0xffffffff)
 	}
 	for s := 0; s < nsec; s++ {
-		// whichever sector is used as a directory sector: name length 0..4 bytes
-		vhAssume(le16(512+128*s+64) <= 4)
+		// whichever sector is used as a directory sector: name length 0..3 bytes
+		b[512+128*s+64] &= 3
+		b[512+128*s+65] = 0
 	}
 	return b
 }
@@ -42,6 +42,12 @@ func VH_C11_CfbOpen() {
 	b := vhCfb(nsec)
 	vhAllocLimit(4<<20 + 16*len(b))
 	vhLoopBound(140)
+	// chain and tree walks: anything longer than the file has sectors / entries is a loop
+	for _, fn := range []string{"readDir", "readShortSAT", "ListDir", "readShortSector", "Read"} {
+		// one allocation-table sector describes 32 sectors; an inner loop header
+		// (one directory entry per sector) is visited twice per outer round
+		vhLoopBoundIn(fn, 2*(32*nsec+4))
+	}
 	doc, err := ReadFile(bytes.NewReader(b))
 	if err != nil {
 		vhReach("rejected") // vh:require rejected
@@ -69,4 +75,40 @@ func VH_C11_CfbOpen() {
 		}
 	}
 	vhReach("listed")
+}
+
+// H11.cfb-msat: the chain of extra MSAT sectors (the header's 109 slots are
+// all free here). Each MSAT sector contributes SectorSize/4-1 allocation-table
+// sector numbers and one pointer to the next MSAT sector; a chain that points
+// back at itself must be refused, not followed while the table grows. Fixed:
+// entries 2..30 of every sector are free (-1) so the allocation table built
+// from them stays small; the first two entries and the next pointer are free.
+func VH_C11_CfbMsatChain() {
+	nsec := vhConcretize(vhInt("sectors", 1, 2), 4)
+	n := 512 + 128*nsec
+	vhMaxLen(n + 8)
+	b := vhBytes("cfb", n)
+	copy(b, fileMagic)
+	binary.LittleEndian.PutUint16(b[28:], byteOrderMarker)
+	binary.LittleEndian.PutUint16(b[30:], 7)
+	b[32] &= 3
+	b[33] = 0
+	for i := 0; i < msatInHeader; i++ {
+		binary.LittleEndian.PutUint32(b[76+4*i:], 0xffffffff)
+	}
+	for s := 0; s < nsec; s++ {
+		for i := 2; i < 31; i++ {
+			binary.LittleEndian.PutUint32(b[512+128*s+4*i:], 0xffffffff)
+		}
+	}
+	vhAllocLimit(4<<20 + 16*len(b))
+	vhLoopBound(400)
+	// the trim loop walks the whole table: 109 header slots + 31 per MSAT sector
+	vhLoopBoundIn("readMSAT", msatInHeader+31*nsec+8)
+	_, err := ReadFile(bytes.NewReader(b))
+	if err != nil {
+		vhReach("rejected") // vh:require rejected
+		return
+	}
+	vhReach("opened")
 }
